@@ -7,5 +7,5 @@ if ! git -C "$d/r" apply --whitespace=nowarn "$(realpath "$1")/patch.diff" 2>/de
   git -C "$d/r" apply --3way --whitespace=nowarn "$(realpath "$1")/patch.diff" >/dev/null 2>&1 || echo "PATCH DOES NOT APPLY"
 fi
 shift
-REPO="$d/r" /verif/bin/verifchk rule "$@" 2>&1 | grep -v "^WARNING"
+REPO="$d/r" ${VERIFCHK:-/verif/bin/verifchk} rule "$@" 2>&1 | grep -v "^WARNING"
 git -C /repo worktree remove --force "$d/r"; rm -rf "$d"
